@@ -155,7 +155,11 @@ for line in sys.stdin:
                 out.write('ERR %s unsupported notype %s\n' % (mid, toks[2]))
                 continue
             obj = cls()
-            obj.decode(ByteBuf(binascii.unhexlify(toks[3])))
+            try:
+                obj.decode(ByteBuf(binascii.unhexlify(toks[3])))
+            except BaseException as e:  # noqa
+                out.write('ERR %s inapplicable first decode failed: %s\n' % (mid, oneline('%s: %s' % (type(e).__name__, e))))
+                continue
             buf = ByteBuf(binascii.unhexlify(toks[4]) if len(toks) > 4 else b'')
             obj.decode(buf)
             out.write('DEC %s %d %s\n' % (mid, buf.read_index, dump(obj)))
